@@ -1,5 +1,6 @@
 import SimuVerif.Lemmas.C12_Centred
 import SimuVerif.Lemmas.C12_OrientClosed
+import SimuVerif.Lemmas.C12_Axis
 /-
   C12 — volume, area, centroid, bounding box and normals are exact and frame-independent.
 
@@ -653,6 +654,86 @@ theorem longest_axis_follows_partial (M N : V3 R → V3 R) (hM : LinIso M) (hN :
   · left; rw [hv'eq, V3.smul_one']
   · right; rw [hv'eq]; apply V3.ext' <;> simp
 
+/-! ## the selection of the returned eigenvector column (`Gen.Geometry.axisColumn`, regenerated from the if-chain
+      at the end of `cell::get_cell_longest_axis`) -/
+
+/-- the matrix handed to the eigen-solver is positive semi-definite for every node cloud and reference point:
+    v·(C v) = (1/n) Σ ((p − c)·v)² ≥ 0 -/
+theorem cov_positive_semidefinite (c : V3 R) (ps : List (V3 R)) (v : V3 R) :
+    V3.dot v (covApply (covRows (covOf c ps)) v)
+        = (ps.map (fun p => V3.dot (p - c) v * V3.dot (p - c) v)).sum / (ps.length : R)
+      ∧ 0 ≤ V3.dot v (covApply (covRows (covOf c ps)) v) :=
+  ⟨cov_quadratic c ps v, cov_psd c ps v⟩
+
+/-- so every eigenvalue is ≥ 0 and the `std::abs` of the selection compares the eigenvalues themselves -/
+theorem cov_eigenvalues_nonneg (c : V3 R) (ps : List (V3 R)) (v : V3 R) (l : R)
+    (hv : covApply (covRows (covOf c ps)) v = v * l) (hn : V3.normSq v ≠ 0) : 0 ≤ l ∧ sabs l = l :=
+  ⟨cov_eigenvalue_nonneg c ps v l hv hn, sabs_of_nonneg (cov_eigenvalue_nonneg c ps v l hv hn)⟩
+
+/-- What `gte::SymmetricEigensolver3x3` is ASSUMED to hand back for the symmetric operator `C` (the solver is opaque;
+    the oracle checks this per executed instance through the eigen-residual): three unit eigenvectors (the columns)
+    with their eigenvalues, and no eigenvalue of `C` is missing. -/
+structure EigOut (C : V3 R → V3 R) (E : V3 R) (cols : V3 R × V3 R × V3 R) : Prop where
+  eig : ∀ k, k < 3 → C (colOf cols k) = colOf cols k * comp E k
+  unit : ∀ k, k < 3 → V3.normSq (colOf cols k) = 1
+  complete : ∀ w m, V3.normSq w ≠ 0 → C w = w * m → ∃ k, k < 3 ∧ m = comp E k
+
+/-- the if-chain returns the column of the largest eigenvalue whenever that eigenvalue is strictly the largest, and that
+    eigenvalue bounds every eigenvalue of the matrix (the `hmax` hypothesis of `longest_axis_follows_partial`) -/
+theorem selected_column_is_top (c : V3 R) (ps : List (V3 R)) (E : V3 R) (cols : V3 R × V3 R × V3 R)
+    (h : EigOut (covApply (covRows (covOf c ps))) E cols) (i : Nat) (hi : i < 3)
+    (hstrict : ∀ j, j < 3 → j ≠ i → comp E j < comp E i) :
+    axisColumn E = i ∧
+      ∀ w m, V3.normSq w ≠ 0 → covApply (covRows (covOf c ps)) w = w * m → m ≤ comp E i := by
+  have hnn : ∀ k, k < 3 → sabs (comp E k) = comp E k := fun k hk =>
+    sabs_of_nonneg (cov_eigenvalue_nonneg c ps _ _ (h.eig k hk) (by rw [h.unit k hk]; exact one_ne_zero))
+  refine ⟨axisColumn_strict_max E i hi (fun j hj hji => ?_), fun w m hw hwm => ?_⟩
+  · rw [hnn j hj, hnn i hi]; exact hstrict j hj hji
+  · obtain ⟨k, hk, rfl⟩ := h.complete w m hw hwm
+    by_cases hki : k = i
+    · rw [hki]
+    · exact le_of_lt (hstrict k hk hki)
+
+/-- `mat33::eigen_decomposition` asks for ascending eigenvalues: the column returned is then column 2 -/
+theorem selected_column_sorted (c : V3 R) (ps : List (V3 R)) (E : V3 R) (cols : V3 R × V3 R × V3 R)
+    (h : EigOut (covApply (covRows (covOf c ps))) E cols) (h1 : E.x ≤ E.y) (h2 : E.y ≤ E.z) :
+    axisColumn E = 2 := by
+  have h0 : 0 ≤ E.x := by
+    have := cov_eigenvalue_nonneg c ps _ _ (h.eig 0 (by omega)) (by rw [h.unit 0 (by omega)]; exact one_ne_zero)
+    simpa [comp] using this
+  exact axisColumn_sorted E h0 h1 h2
+
+/-- the tie the if-chain does not resolve: the else-branch returns column 2 even when the eigenvalues of columns 0 and 1
+    are equal and LARGER — the only case in which the selected column is not a maximum; the longest axis is then not
+    unique (the property excludes it) and the ascending order of the solver never produces it -/
+theorem selection_max_or_tie (E : V3 R) :
+    (∀ j, j < 3 → sabs (comp E j) ≤ sabs (comp E (axisColumn E))) ∨
+      (sabs E.x = sabs E.y ∧ sabs E.z < sabs E.x ∧ axisColumn E = 2) :=
+  axisColumn_max_or_tie E
+
+/-- THE LONGEST AXIS FOLLOWS THE CELL (selection included).  `get_cell_longest_axis` of the moved cell is ± the moved
+    axis of the original cell, for every linear isometry `M` (rotation or reflection) and translation `d`, whenever the
+    largest eigenvalue is strictly the largest in both outputs of the solver and its eigenspace is a line.  Compared with
+    `longest_axis_follows_partial` the column selection is no longer a hypothesis: it is the regenerated if-chain, and the
+    maximality of the selected eigenvalue is derived (positive semi-definiteness + `EigOut`).  Still assumed: `EigOut` of
+    the opaque solver, for both matrices. -/
+theorem longest_axis_follows (M N : V3 R → V3 R) (hM : LinIso M) (hN : LinIso N)
+    (hMN : ∀ x, M (N x) = x) (hNM : ∀ x, N (M x) = x) (d c : V3 R) (ps : List (V3 R))
+    (E E' : V3 R) (cols cols' : V3 R × V3 R × V3 R)
+    (h : EigOut (covApply (covRows (covOf c ps))) E cols)
+    (h' : EigOut (covApply (covRows (covOf (M c + d) (ps.map (fun p => M p + d))))) E' cols')
+    (i i' : Nat) (hi : i < 3) (hi' : i' < 3)
+    (hstrict : ∀ j, j < 3 → j ≠ i → comp E j < comp E i)
+    (hstrict' : ∀ j, j < 3 → j ≠ i' → comp E' j < comp E' i')
+    (huniq : ∀ w, covApply (covRows (covOf c ps)) w = w * comp E i → ∃ k : R, w = colOf cols i * k) :
+    colOf cols' (axisColumn E') = M (colOf cols (axisColumn E)) ∨
+      colOf cols' (axisColumn E') = -(M (colOf cols (axisColumn E))) := by
+  obtain ⟨hs, hmax⟩ := selected_column_is_top c ps E cols h i hi hstrict
+  obtain ⟨hs', hmax'⟩ := selected_column_is_top (M c + d) (ps.map (fun p => M p + d)) E' cols' h' i' hi' hstrict'
+  rw [hs, hs']
+  exact longest_axis_follows_partial M N hM hN hMN hNM d c ps (colOf cols i) (colOf cols' i') (comp E i) (comp E' i')
+    (h.eig i hi) (h.unit i hi) (h'.eig i' hi') (h'.unit i' hi') hmax hmax' huniq
+
 /-! ## every rotation / reflection matrix is covered -/
 
 /-- a matrix whose first two columns are orthonormal and whose third column is their cross product
@@ -726,6 +807,53 @@ example : (((floodInit (nbr cubeEs) cubeT).bind (floodRun (nbr cubeEs) (3 * cube
     (fun s => s.checked.all id)) = some true := by decide
 example : GoodPair (0,1,3) (2,3,1) := ⟨1, 3, 0, 2, by decide, by decide, by decide, by decide, by decide, by decide,
   by decide, by decide⟩
+/-- the selection on the ascending output of the solver for a 1 x 2 x 3 box cloud: column 2 -/
+example : axisColumn (⟨1/3, 4/3, 3⟩ : V3 ℚ) = 2 := by
+  norm_num [axisColumn, sabs, lit_eq]
+/-- … and a strict maximum in column 0 / column 1 is found as well (an unsorted solver would be handled) -/
+example : axisColumn (⟨3, 4/3, 1/3⟩ : V3 ℚ) = 0 ∧ axisColumn (⟨1/3, 3, 4/3⟩ : V3 ℚ) = 1 := by
+  constructor <;> norm_num [axisColumn, sabs, lit_eq]
+/-- the tie of `selection_max_or_tie` exists: equal largest eigenvalues in columns 0 and 1 → column 2 (the smallest) -/
+example : axisColumn (⟨5, 5, 1⟩ : V3 ℚ) = 2 := by
+  norm_num [axisColumn, sabs, lit_eq]
+/-- the six face centres of a 2 x 4 x 6 box around the origin -/
+def boxCloud : List (V3 ℚ) := [⟨1,0,0⟩, ⟨-1,0,0⟩, ⟨0,2,0⟩, ⟨0,-2,0⟩, ⟨0,0,3⟩, ⟨0,0,-3⟩]
+theorem boxCloud_cov (w : V3 ℚ) :
+    covApply (covRows (covOf ⟨0,0,0⟩ boxCloud)) w = ⟨w.x * (1/3), w.y * (4/3), w.z * 3⟩ := by
+  apply V3.ext' <;>
+    norm_num [covApply, covRows, covOf, covFinish, covStep, covInit, boxCloud, V3.dot_def, lit_eq] <;> ring
+/-- `EigOut` is satisfiable: the diagonal covariance of `boxCloud` with the coordinate axes as columns -/
+theorem boxCloud_eigOut :
+    EigOut (covApply (covRows (covOf ⟨0,0,0⟩ boxCloud))) (⟨1/3, 4/3, 3⟩ : V3 ℚ) (⟨1,0,0⟩, ⟨0,1,0⟩, ⟨0,0,1⟩) := by
+  refine ⟨fun k hk => ?_, fun k hk => ?_, fun w m hw hwm => ?_⟩
+  · rw [boxCloud_cov]
+    (obtain rfl | rfl | rfl : k = 0 ∨ k = 1 ∨ k = 2 := by omega) <;> apply V3.ext' <;> norm_num [colOf, comp]
+  · (obtain rfl | rfl | rfl : k = 0 ∨ k = 1 ∨ k = 2 := by omega) <;> norm_num [colOf, V3.normSq_def]
+  · rw [boxCloud_cov] at hwm
+    have hx : w.x * (1/3) = w.x * m := congrArg V3.x hwm
+    have hy : w.y * (4/3) = w.y * m := congrArg V3.y hwm
+    have hz : w.z * 3 = w.z * m := congrArg V3.z hwm
+    by_cases h0 : w.x = 0
+    · by_cases h1 : w.y = 0
+      · have h2 : w.z ≠ 0 := by
+          intro h2; apply hw; simp [V3.normSq_def, h0, h1, h2]
+        exact ⟨2, by omega, by simpa [comp] using (mul_left_cancel₀ h2 hz).symm⟩
+      · exact ⟨1, by omega, by simpa [comp] using (mul_left_cancel₀ h1 hy).symm⟩
+    · exact ⟨0, by omega, by simpa [comp] using (mul_left_cancel₀ h0 hx).symm⟩
+/-- … with a strictly largest eigenvalue in column 2, whose eigenspace is the z axis: every hypothesis of
+    `longest_axis_follows` about the original cell holds for it -/
+example : (∀ j, j < 3 → j ≠ 2 → comp (⟨1/3, 4/3, 3⟩ : V3 ℚ) j < comp (⟨1/3, 4/3, 3⟩ : V3 ℚ) 2) ∧
+    (∀ w : V3 ℚ, covApply (covRows (covOf ⟨0,0,0⟩ boxCloud)) w = w * comp (⟨1/3, 4/3, 3⟩ : V3 ℚ) 2 →
+      ∃ k : ℚ, w = colOf ((⟨1,0,0⟩ : V3 ℚ), (⟨0,1,0⟩ : V3 ℚ), (⟨0,0,1⟩ : V3 ℚ)) 2 * k) := by
+  constructor
+  · intro j hj hj2
+    (obtain rfl | rfl : j = 0 ∨ j = 1 := by omega) <;> norm_num [comp]
+  · intro w hw
+    rw [boxCloud_cov] at hw
+    have hx : w.x * (1/3) = w.x * 3 := by simpa [comp] using congrArg V3.x hw
+    have hy : w.y * (4/3) = w.y * 3 := by simpa [comp] using congrArg V3.y hw
+    refine ⟨w.z, ?_⟩
+    apply V3.ext' <;> norm_num [colOf] <;> linarith
 end nonvacuous
 
 end Simu.C12
